@@ -259,6 +259,16 @@ func (k *Kit) Scripts() []Script {
 			mk("blockhash", 2, ptr(k.C.BlockHash2), 0, word(3)), mk("blockhash", 0, ptr(k.C.BlockHash), 0, word(2)))
 		out = append(out, s)
 	}
+	// S9: clearing a storage leaf whose only sibling under the parent branch is an untouched BRANCH node
+	//     (the collapse must resolve a hashed branch sibling; it must be in the witness)
+	{
+		sh := ShapeSlots()
+		out = append(out, Script{"clear-leaf-next-to-branch", []TxSpec{
+			mk("store", 0, ptr(k.C.Shape1), 0, cat(word(sh.L1), word(0))),
+			mk("store", 1, ptr(k.C.Shape2), 0, cat(word(sh.L2), word(0))),
+			mk("transfer", 2, ptr(k.Addrs[3]), 5, nil),
+		}})
+	}
 	if k.AtLeast("prague") {
 		// S8: delegation set, used and cleared inside one block
 		storeA, nul := k.C.Store, common.Address{}
